@@ -369,6 +369,11 @@ def r12_4(ctx, info) -> None:
         cn = calls[0]
         c = inline_locals(ctx, g, cfg, cn, cn.ast)  # ``getter = self.func`` etc. unfolded
         args = [norm(a) for a in c.args]
+        if c.keywords and not c.args and all(k.arg for k in c.keywords):
+            # (keyword arguments: in the order of the placeholder's constructor parameters)
+            pinit = info.methods.get("__init__")
+            by_name = {k.arg: norm(k.value) for k in c.keywords}
+            args = [by_name[p_] for p_ in (pinit.param_names()[1:] if pinit is not None else []) if p_ in by_name]
         key = norm(inline_locals(ctx, g, cfg, slot_stores[0][0], slot_stores[0][1].slice))
         fields = {a.attr for st in own_nodes(desc.methods["__init__"].node) if isinstance(st, (ast.Assign, ast.AnnAssign))
                   for a in ast.walk(st) if isinstance(a, ast.Attribute) and isinstance(a.ctx, ast.Store)} if "__init__" in desc.methods else set()
@@ -377,6 +382,10 @@ def r12_4(ctx, info) -> None:
         ctx.check(ok, "R12.4", g, cn.ast, "the placeholder is created for this instance under the same name it is stored under",
                   witness=f"placeholder args {args}, stored under [{key}]")
         lock_arg = c.args[3] if len(c.args) > 3 else None
+        if lock_arg is None and c.keywords:
+            pinit = info.methods.get("__init__")
+            pn = pinit.param_names()[1:] if pinit is not None else []
+            lock_arg = next((k.value for k in c.keywords if len(pn) > 3 and k.arg == pn[3]), None)
         ctx.check(isinstance(lock_arg, ast.Call) and not lock_arg.args, "R12.4", g, cn.ast,
                   "a new lock object is created per placeholder (per instance and computation)")
     else:
@@ -439,7 +448,8 @@ def r12_6(ctx) -> None:
     u = ctx.unit("functools.AwaitableValue.__await__")
     cfg = cfg_of(u)
     alive = live_nodes(cfg)
-    ys = [n for n in cfg.nodes if n.kind == "yield" and n in alive]
+    from .common import empty_delegation
+    ys = [n for n in cfg.nodes if n.kind == "yield" and n in alive and not empty_delegation(n)]
     ctx.check(not ys, "R12.6", u, ys[0] if ys else "__await__",
               "awaiting a cached value never suspends (its yield is unreachable)", node=ys[0] if ys else None)
     rets = [n for n in cfg.nodes if n.kind == "return" and n in alive]
